@@ -293,55 +293,85 @@ class Cfg:
         t = blk.term
         if t.k != "switch" or t.discr.place is None or t.discr.place.proj:
             return []
+        site = self.correlated_site(s, tgt)
+        if site is None:
+            return []
+        return [a for a in self.guards(site) if a[0] != "opaque"]
+
+    def correlated_site(self, s, tgt):
+        """the single block that can have produced the switched-on value as the variant selected by edge s->tgt: every
+        other definition reaching the switch builds a different variant literally.  (A definition by a call may produce any
+        variant.)  None when there is no such unique block."""
         want = None
         for a in self.edge_atoms(s, tgt):
             if a[0] == "variant" and len(a[2]) == 1:
                 want = a[2][0]
         if want is None:
-            return []
+            return None
         want = {"Continue": ("Ok", "Some"), "Break": ("Err", "None")}.get(want, (want,))
-        # local whose discriminant is switched on
-        l = t.discr.place.local
-        src = None
-        for st in reversed(blk.stmts):
-            if st.k == "assign" and st.place.is_local() and st.place.local == l and st.rv.k == "discr" and not st.rv.place.proj:
-                src = (st.rv.place.local, (s, blk.stmts.index(st)))
-                break
-        if src is None:
-            return []
-        val_local, at = src
-        hops = 0
-        while hops < 4:
-            hops += 1
-            defs = self.ev.reaching_defs(val_local, at)
-            if len(defs) == 1 and defs[0][0] == "c":
-                ct = self.body.blocks[defs[0][1]].term
-                if (ct.callee_name in ("branch", "into", "from", "clone") and len(ct.args) == 1 and ct.args[0].place is not None and not ct.args[0].place.proj):
-                    val_local = ct.args[0].place.local
-                    at = (defs[0][1], len(self.body.blocks[defs[0][1]].stmts))
-                    continue
-            if len(defs) == 1 and defs[0][0] == "s":
-                st = self.body.blocks[defs[0][1]].stmts[defs[0][2]]
-                if st.rv.k == "use" and st.rv.ops[0].place is not None and not st.rv.ops[0].place.proj:
-                    val_local = st.rv.ops[0].place.local
-                    at = (defs[0][1], defs[0][2])
-                    continue
-            break
-        defs = self.ev.reaching_defs(val_local, at)
-        if len(defs) < 2:
-            return []
-        matching = []
+        defs = self.switch_value_defs(s)
+        if not defs or len(defs) < 2:
+            return None
+        matching = set()
         for d in defs:
-            if d[0] != "s":
-                return []
-            st = self.body.blocks[d[1]].stmts[d[2]]
-            if st.rv.k != "agg" or st.rv.j.get("ak") != "adt":
-                return []
-            if st.rv.j.get("variant") in want:
-                matching.append(d[1])
-        if len(set(matching)) != 1:
-            return []
-        return [a for a in self.guards(matching[0]) if a[0] != "opaque"]
+            if d[0] == "agg":
+                if d[2] in want:
+                    matching.add(d[1])
+            elif d[0] == "call":
+                matching.add(d[1])
+            else:
+                return None
+        if len(matching) != 1:
+            return None
+        return next(iter(matching))
+
+    pure_call_hook = None      # set by query.World: (Term) -> bool, the callee writes nothing
+
+    def fresh_atoms(self, site):
+        """branch conditions that still HOLD at block `site`: atoms of its controlling edges from whose target nothing
+        but temporaries (and calls of functions that write nothing) is executed on the way to `site`"""
+        out = []
+        for (x, y), atoms in self.guard_edges_with_atoms(site):
+            if (x, y) in self.dead_edges():
+                continue
+            if self.pure_path(y, site, include_first=True, cut=(x,)):     # (coming round to x again re-tests the condition)
+                for a in atoms:
+                    if a[0] != "opaque" and a not in out:
+                        out.append(a)
+        return out
+
+    def _pure_block(self, x, with_term=True):
+        blk = self.body.blocks[x]
+        mem = self.ev.memory_locals()
+        if with_term and blk.term is not None and blk.term.k in ("call", "drop"):
+            if blk.term.k == "drop":
+                return False
+            if not (Cfg.pure_call_hook and Cfg.pure_call_hook(blk.term)) or not blk.term.dest.is_local() or blk.term.dest.local in mem:
+                return False
+        for st in blk.stmts:
+            if st.k != "assign" or not st.place.is_local() or st.place.local in mem:
+                return False
+        return True
+
+    def pure_path(self, a, b, include_first=False, cut=()):
+        """no memory write and no call (other than of functions that write nothing) on any path from the end of block a
+        (from its start with include_first) to the start of block b"""
+        if include_first and a != b and not self._pure_block(a):
+            return False
+        if include_first and a == b:
+            return True
+        if a == b:
+            return True
+        fwd = set()
+        for x in self.body.succs(a):
+            fwd |= self.reach_from(x, cut_blocks=[b] + list(cut))      # (first arrival at b: a way round a loop passes b itself)
+        between = {x for x in fwd if x != b and b in self.reach_from(x, cut_blocks=list(cut))}
+        if a in between:
+            return False        # a loop back through a
+        for x in between:
+            if not self._pure_block(x):
+                return False
+        return True
 
     def bypassable(self, b, edges):
         """can execution, once past the last controlling edge of b (or from entry), finish
@@ -501,6 +531,49 @@ class Cfg:
                 return None
             if st.rv.j.get("variant") in names:
                 out.add(d[1])
+        return out
+
+    def switch_value_defs(self, s):
+        """definitions that may provide the value whose discriminant block s switches on, followed through plain copies
+        and `?`-style pass-through calls: list of ("agg", block, variant name) / ("call", block, callee name, Term) /
+        ("other", block, None); None when block s does not switch on a local's discriminant"""
+        blk = self.body.blocks[s]
+        t = blk.term
+        if t is None or t.k != "switch" or t.discr.place is None or t.discr.place.proj:
+            return None
+        l = t.discr.place.local
+        src = None
+        for st in reversed(blk.stmts):
+            if st.k == "assign" and st.place.is_local() and st.place.local == l and st.rv.k == "discr" and not st.rv.place.proj:
+                src = (st.rv.place.local, (s, blk.stmts.index(st)))
+                break
+        if src is None:
+            return None
+        out = []
+        seen = set()
+        work = [src]
+        while work:
+            val_local, at = work.pop()
+            if (val_local, at) in seen:
+                continue
+            seen.add((val_local, at))
+            for d in self.ev.reaching_defs(val_local, at):
+                if d[0] == "c":
+                    ct = self.body.blocks[d[1]].term
+                    if ct.callee_name in ("branch", "into", "from", "clone") and len(ct.args) == 1 and ct.args[0].place is not None and not ct.args[0].place.proj:
+                        work.append((ct.args[0].place.local, (d[1], len(self.body.blocks[d[1]].stmts))))
+                    else:
+                        out.append(("call", d[1], ct.callee_name or "", ct))
+                elif d[0] == "s":
+                    st = self.body.blocks[d[1]].stmts[d[2]]
+                    if st.rv.k == "use" and st.rv.ops[0].place is not None and not st.rv.ops[0].place.proj:
+                        work.append((st.rv.ops[0].place.local, (d[1], d[2])))
+                    elif st.rv.k == "agg" and st.rv.j.get("ak") == "adt":
+                        out.append(("agg", d[1], st.rv.j.get("variant")))
+                    else:
+                        out.append(("other", d[1], None))
+                else:
+                    out.append(("other", d[1] if len(d) > 1 else -1, None))
         return out
 
     def reach_under(self, assume_cut):
